@@ -52,9 +52,16 @@ pub fn body_res_string(_f: usize, _x: u32) -> std::result::Result<String, String
     if s.ok { Ok(pad(s.v, s.len)) } else { Err(pad(s.v, s.len)) }
 }
 
+thread_local! {
+    pub static INV_FLIP: std::cell::Cell<bool> = std::cell::Cell::new(false);
+}
 pub fn inv(_f: usize, key: &String, encv: u64) -> bool {
     LOG.with(|l| l.borrow_mut().inv.push((key.clone(), encv)));
-    SCRIPT.with(|s| s.borrow().inv)
+    let verdict = SCRIPT.with(|s| s.borrow().inv);
+    if INV_FLIP.with(|c| c.get()) {
+        SCRIPT.with(|s| s.borrow_mut().inv = false);
+    }
+    verdict
 }
 pub fn cif(_f: usize, key: &String, encv: u64) -> bool {
     LOG.with(|l| l.borrow_mut().cif.push((key.clone(), encv)));
